@@ -185,6 +185,61 @@ def check_when(ctx: Context, rep, rule: str) -> None:
            where="DatasetStructure",
            construct=f"hash_checksum_algorithms: {short(ann)}",
            message="the configuration is an ordered tuple of known names")
+    # the configuration is read live: nobody on the writing side keeps a
+    # snapshot of the DatasetStructure (shards hashed under the snapshot's
+    # algorithms would disagree with the configuration recorded later)
+    rep.rule(
+        "C16.live-config",
+        "no assignment in the writing modules stores a copy of a "
+        "DatasetStructure (model_copy / copy.copy / copy.deepcopy / "
+        "re-validation of a dump): every holder aliases the dataset's object, "
+        "so all hash sites see the same hash_checksum_algorithms")
+    n_hold = 0
+
+    def is_structure(fn_, e) -> bool:
+        t = ctx.res.infer(fn_, e)
+        return t is not None and t.name.rsplit(".", 1)[-1].rsplit(
+            ":", 1)[-1] == "DatasetStructure"
+
+    for fn_ in ctx.repo.all_functions():
+        if not fn_.module.name.startswith("sedpack.io") or isinstance(
+                fn_.node, ast.Lambda):
+            continue
+        for n_ in fn_.body_nodes():
+            if not isinstance(n_, (ast.Assign, ast.AnnAssign)) or \
+                    n_.value is None:
+                continue
+            v_ = n_.value
+            if is_structure(fn_, v_) and isinstance(
+                    v_, (ast.Name, ast.Attribute)):
+                n_hold += 1
+            if not isinstance(v_, ast.Call):
+                continue
+            copied = None
+            f_ = v_.func
+            if isinstance(f_, ast.Attribute) and f_.attr in (
+                    "model_copy", "copy", "__deepcopy__", "__copy__") and \
+                    is_structure(fn_, f_.value):
+                copied = f_.value
+            elif ctx.is_call(fn_, v_, "copy.deepcopy", "copy.copy") and \
+                    v_.args and is_structure(fn_, v_.args[0]):
+                copied = v_.args[0]
+            elif (dotted(f_) or "").split(".")[0] == "DatasetStructure" and any(
+                    is_structure(fn_, x) for x in ast.walk(v_)
+                    if isinstance(x, (ast.Name, ast.Attribute)) and x is not f_
+                    and not (isinstance(x, ast.Name) and
+                             x.id == "DatasetStructure")):
+                copied = v_
+            if copied is not None:
+                rep.ob("C16.live-config", False, loc=fn_.loc(n_),
+                       where=fn_.qualname, construct=short(n_, 80),
+                       message="a snapshot of the dataset structure is kept: "
+                       "digests recorded through it use the algorithms as of "
+                       "the snapshot, not the configured ones")
+    rep.ob("C16.live-config", n_hold >= 2,
+           loc="src/sedpack/io/dataset_filler.py:1", where="sedpack.io",
+           construct=f"{n_hold} holder(s) of a DatasetStructure, all aliases",
+           message="holders of the dataset structure found and checked")
     from sa.rules import shared
     shared.check_no_memo(ctx, rep, "C16.memo")
 
@@ -489,6 +544,10 @@ def run(ctx: Context, rep) -> None:
 
 _U = "src/sedpack/io/utils.py"
 SELFTESTS = [
+    dict(rule="C16.live-config", name="filler-snapshots-structure", expect="fire",
+         path="src/sedpack/io/dataset_filler.py",
+         old="        self._dataset_structure: DatasetStructure = dataset_structure\n",
+         new="        self._dataset_structure: DatasetStructure = dataset_structure.model_copy(deep=True)\n"),
     dict(rule="C16.names", name="xxh32-builds-xxh64", expect="fire", path=_U,
          old='        case "xxh32":\n            return xxhash.xxh32()',
          new='        case "xxh32":\n            return xxhash.xxh64()'),
